@@ -152,6 +152,7 @@ func newSpecDB() *SpecDB {
 	db := newSpecDB0()
 	db.Ghosts["clock_ms"] = &GhostVar{Name: "clock_ms", Sort: "Int"}
 	db.Ghosts["clock_ns"] = &GhostVar{Name: "clock_ns", Sort: "Int"}
+	db.Ghosts["slept_ns"] = &GhostVar{Name: "slept_ns", Sort: "Int"} // total of all util.Sleep / time.Sleep arguments
 	return db
 }
 
